@@ -13,7 +13,7 @@ CHECKS = {
  "C04": ("fault_enumeration", "4.4", "channel fault injection (truncate/flip/insert/delete/dup/swap, targeted RFC violations) x schedules, verdict vs reference inflater",
          "Fault-injecting configuration: mutated and grammar-built invalid streams under seeded chunkings; the real decoder's accept/reject verdict, output and consumed count are compared with the reference inflater (ring semantics in ring mode); pure truncations must never be rejected as corrupt."),
  "C05": ("fault_enumeration", "4.5", "arbitrary bytes x arbitrary call histories on one decoder object, release and debug builds, process watchdog",
-         "Totality under chaos: arbitrary inputs, flag sets, output geometries and call histories in both build profiles, with process-level detection of panics, aborts and non-termination."),
+         "Totality under chaos: arbitrary inputs, flag sets, output geometries and call histories in both build profiles, with process-level detection of panics, aborts and non-termination (CPU-time watchdog); failures incl. checksum mismatches are absorbing."),
  "C06": ("fault_enumeration", "4.6", "trailing-garbage channel fault x cut points around the stream end, exact-length oracle",
          "Valid streams followed by unrelated bytes, delivered with cuts around the stream end to the core decoder (flat, ring) and inflate(); total consumed must equal the generator's exact encoded length."),
  "C07": ("exploration", "4.7", "suspend/resume schedule families (all single cuts, k-byte feeding, all budgets) + seeded partitions vs one-call run of the same decoder",
@@ -25,19 +25,19 @@ CHECKS = {
  "C10": ("exploration", "4.10", "token trace of compressor output under schedules, reference inflater + system zlib as independent decoders",
          "Everything any compressor driver emits is parsed by the reference inflater (token level) and by system zlib; mode clauses (stored-only, fixed, huffman-only, RLE, filtered) and the redundancy clause are evaluated on the trace."),
  "C11": ("exploration", "4.11", "pipeline with a window-limited consumer (zlib inflateInit2(0), crate ring decoder of the declared size)",
-         "The compressor is run with window_bits 1..15 on inputs with planted far repeats; the declared window is compared with the maximum distance of the token trace and two bounded-memory decoders must finish."),
+         "The compressor (created with window_bits 1..15, optionally reconfigured through the setters or reused after reset) is run on inputs with planted far repeats, on periodic data whose only redundancy lies just beyond the window (300-600 KB streams, and all 4096 phases of the self-initiated block flush); the declared window is compared with the maximum distance of the token trace and two bounded-memory decoders must finish."),
  "C12": ("exploration", "4.12", "flush operations at scheduler-chosen instants, prefix decode by the reference inflater",
          "For every qualifying flush the bytes emitted so far are decoded on their own; full flushes are additionally checked by decoding the remainder with empty history."),
  "C13": ("exploration", "4.13", "call-history search on inflate() (bounded-depth enumeration + seeded random), protocol invariants and bounded liveness",
          "Protocol invariants lifted from the statement are checked after every call of seeded and enumerated histories on valid, truncated, corrupt and trailing-byte streams."),
  "C14": ("exploration", "4.14", "call-history search on deflate() (bounded-depth enumeration + seeded random), protocol invariants and bounded liveness",
-         "Protocol invariants of the streaming compressor wrapper under seeded and enumerated histories incl. output buffers smaller than a flush marker."),
+         "Protocol invariants of the streaming compressor wrapper under seeded and enumerated histories incl. output buffers smaller than a flush marker; stream end is due exactly on the call that delivers the last byte; the self-initiated block flush is swept through its phases via deflate(); 20 % of the runs also in the debug profile."),
  "C16": ("exploration", "4.16", "checksum updates under seeded/swept split schedules, running-checksum probes in pipe/dec runs, scalar vs simd digests",
-         "Incremental checksum calls under split schedules against bytewise definitions; running checksums of compressor, decoder and C stream probed after every simulated step; scalar and simd builds compared."),
+         "Incremental checksum calls under split schedules against bytewise definitions, including seeds and inputs constructed so that the Adler-32 is 0, 1 or has a zero half; running checksums of compressor, decoder and C stream probed after every simulated step; scalar and simd builds compared."),
  "C17": ("fault_enumeration", "4.17", "C ABI lock-step simulation with guard-page buffers, misuse operations, child-process isolation",
-         "The exported C functions are driven in lock step with the Rust API with every buffer placed against PROT_NONE pages; misuse operations must return error codes; crashes are observed at process level."),
+         "Every exported C function (mz_* stream and one-shot calls, tdefl_*, tinfl_* incl. the alloc/init/get_adler32 helpers, checksum and allocator callbacks) is driven in lock step with the Rust API with every buffer placed against PROT_NONE pages; misuse operations must return error codes; crashes are observed at process level."),
  "C18": ("exploration", "4.18", "random prior history -> reset -> lock-step with a fresh object",
-         "Objects with arbitrary prior histories are reset and compared call by call with freshly constructed ones."),
+         "Objects with arbitrary prior histories (abandoned, failed, corrupt streams; chains of two resets) are reset and compared call by call with freshly constructed ones."),
  "C19": ("fault_enumeration", "4.19", "crash/restart of the decoder node from clone, serde image or block-boundary record at every suspension point",
          "The decoder is killed between calls and restarted from a snapshot; the continuation must equal the uninterrupted run."),
 }
